@@ -136,6 +136,7 @@ structure Hist where
   leak : Nat := 0
   own : List Nat := []
   share : List (Nat × String) := []
+  finalKeys : Option (List Str) := none
   fatal : Option String := none
   t0 : Int := 0
   deriving Repr
@@ -206,6 +207,7 @@ def parseLine (h : Hist) (line : String) : Hist :=
   | ["O", "REQCMP", n, v] => { h with reqcmp := h.reqcmp ++ [(toNat n, v == "same")] }
   | ["O", "LEAK", n] => { h with leak := toNat n }
   | ["O", "OWN", n, "changed", _] => { h with own := toNat n :: h.own }
+  | ["O", "KEYS", ks] => { h with finalKeys := some (if ks == "" then [] else (ks.splitOn ",").map unhex) }
   | ["O", "SHARE", n, what] => { h with share := (toNat n, what) :: h.share }
   | ["O", "FATAL", m] => { h with fatal := some (String.ofList (unhex m)) }
   | _ => h
